@@ -173,17 +173,18 @@ type recSrc struct {
 }
 
 func (s *recSrc) Int63() int64 {
+	// 53 significant bits, so that float64(v) is exact and below 2^63 (no resampling in Float64)
 	var v int64
 	switch s.mode {
 	case "lo":
 		v = 0
 	case "hi":
-		v = 1<<53 - 1
+		v = (1<<53 - 1) << 10
 	default:
-		v = int64(s.rng.U64() >> 1)
+		v = int64(s.rng.U64()>>11) << 10
 	}
-	// (*rand.Rand).Float64: float64(Int63n(1<<53)) / (1<<53), Int63n of a power of two masks
-	s.draws = append(s.draws, float64(v&(1<<53-1))/(1<<53))
+	// (*rand.Rand).Float64: float64(r.Int63()) / (1 << 63)
+	s.draws = append(s.draws, float64(v)/(1<<63))
 	return v
 }
 func (s *recSrc) Seed(int64) {}
@@ -285,12 +286,12 @@ func (s bezSpec) coq(id int, vs []v2.Vec, outcome int, draws []float64) string {
 
 // ---- small vector helpers (independent of the library's own)
 
-func sub(a, b v2.Vec) v2.Vec      { return v2.Vec{X: a.X - b.X, Y: a.Y - b.Y} }
-func add(a, b v2.Vec) v2.Vec      { return v2.Vec{X: a.X + b.X, Y: a.Y + b.Y} }
+func sub(a, b v2.Vec) v2.Vec         { return v2.Vec{X: a.X - b.X, Y: a.Y - b.Y} }
+func add(a, b v2.Vec) v2.Vec         { return v2.Vec{X: a.X + b.X, Y: a.Y + b.Y} }
 func scl(a v2.Vec, k float64) v2.Vec { return v2.Vec{X: a.X * k, Y: a.Y * k} }
-func dot(a, b v2.Vec) float64     { return a.X*b.X + a.Y*b.Y }
-func crs(a, b v2.Vec) float64     { return a.X*b.Y - a.Y*b.X }
-func norm(a v2.Vec) float64       { return math.Hypot(a.X, a.Y) }
+func dot(a, b v2.Vec) float64        { return a.X*b.X + a.Y*b.Y }
+func crs(a, b v2.Vec) float64        { return a.X*b.Y - a.Y*b.X }
+func norm(a v2.Vec) float64          { return math.Hypot(a.X, a.Y) }
 func finite(a v2.Vec) bool {
 	return !math.IsNaN(a.X) && !math.IsNaN(a.Y) && !math.IsInf(a.X, 0) && !math.IsInf(a.Y, 0)
 }
